@@ -278,6 +278,8 @@ func opLane(w *World, op *Op) {
 		bz, valid = WrapEth(ethMsg, ethTx.Gas(), fullFee, nil), true
 	case "memo":
 		bz = WrapEth(ethMsg, ethTx.Gas(), fullFee, &WrapOpts{Memo: "hello"})
+	case "memo_blank": // a memo that is present but consists of white space only
+		bz = WrapEth(ethMsg, ethTx.Gas(), fullFee, &WrapOpts{Memo: pick(newRng(uint64(op.Ref)+11), " ", "\n", "\t  ", strings.Repeat(" ", 300))})
 	case "timeout":
 		bz = WrapEth(ethMsg, ethTx.Gas(), fullFee, &WrapOpts{TimeoutHeight: uint64(w.C.Height + 100)})
 	case "fee_payer":
@@ -401,7 +403,7 @@ func opLane(w *World, op *Op) {
 	w.submitBytes(bz, -1, "")
 }
 
-var laneRecipes = []string{"valid", "memo", "timeout", "fee_payer", "fee_granter", "no_ext_opt", "extra_ext_opt", "foreign_ext_opt_only", "non_critical_ext_opt", "non_critical_ext_opt_only", "fee_lower", "fee_higher",
+var laneRecipes = []string{"valid", "memo", "memo_blank", "timeout", "fee_payer", "fee_granter", "no_ext_opt", "extra_ext_opt", "foreign_ext_opt_only", "non_critical_ext_opt", "non_critical_ext_opt_only", "fee_lower", "fee_higher",
 	"fee_other_denom", "gas_higher", "gas_lower", "two_eth", "eth_beside_send", "send_beside_eth_signed", "with_signature", "raw_signature_no_signer_info", "exec_eth", "exec_eth", "exec_exec_sibling_eth",
 	"grant_eth", "exec_vesting", "exec_send", "exec_eth_of_another_sender"}
 
